@@ -2,6 +2,7 @@ package checks
 
 import (
 	"fmt"
+	"runtime"
 	"sort"
 	"strings"
 	"time"
@@ -30,6 +31,9 @@ type world struct {
 	xrOrigin  map[int]int            // xattr fid serial -> origin handle (shares the File)
 	steps     []stepRec
 	tagNext   uint16
+	life   bool
+	closed bool
+	srcParentless bool
 	// desync: a request whose outcome the properties leave open succeeded and
 	// may have changed the backend tree in a way the model does not predict;
 	// the rest of the session is not judged.
@@ -53,6 +57,7 @@ type stepRec struct {
 }
 
 type worldOpts struct {
+	life       bool // check the File lifecycle after every step (C05)
 	conns      int
 	native     bool
 	monitor    bool
@@ -76,6 +81,7 @@ func newWorld(o worldOpts) (*world, *fail) {
 	}
 	w := &world{fs: memfs.New(memfs.Options{NativeWalkGetAttr: o.native, Monitor: o.monitor}), msize: o.msize,
 		parent: map[int]int{}, xrOrigin: map[int]int{}}
+	w.life = o.life
 	w.model = refmodel.New(o.conns)
 	o.populate(w.fs.Tree)
 	o.populate(w.model.Tree)
@@ -114,6 +120,13 @@ func (w *world) do(conn int, req *refcodec.Msg) (*stepResult, *fail) {
 	if req.Tag == 0 {
 		req.Tag = w.tag()
 	}
+	// a clone of an xattr fid has no parent on the server (its source has none)
+	w.srcParentless = false
+	if req.Type == refcodec.Twalk || req.Type == refcodec.Twalkgetattr {
+		if pre := w.model.Get(conn, uint32(req.U("fid"))); pre != nil && pre.Opaque && pre.Root {
+			w.srcParentless = true
+		}
+	}
 	exp := w.model.Step(conn, req)
 	before := w.fs.Seq()
 	w.fs.Arm(true)
@@ -144,6 +157,11 @@ func (w *world) do(conn int, req *refcodec.Msg) (*stepResult, *fail) {
 		w.desync = true
 	}
 	w.learn(conn, req, rep, calls)
+	if w.life && !w.desync {
+		if f := w.lifecycle(false); f != nil {
+			return res, f
+		}
+	}
 	return res, nil
 }
 
@@ -161,6 +179,9 @@ func (w *world) learn(conn int, req *refcodec.Msg, rep *refcodec.Msg, calls []me
 			}
 			if len(c.Names) == 0 {
 				w.parent[c.New] = w.parent[c.Handle]
+				if w.srcParentless {
+					w.parent[c.New] = 0
+				}
 			} else {
 				w.parent[c.New] = c.Handle
 			}
@@ -226,7 +247,7 @@ func (w *world) expectedOpen() map[int]bool {
 // open set (C05). final=true: nothing may remain open.
 func (w *world) lifecycle(final bool) *fail {
 	for _, a := range w.fs.Anomalies() {
-		if a.Kind == "use-after-close" || a.Kind == "double-close" {
+		if a.Kind == "use-after-close" || a.Kind == "double-close" || a.Kind == "close-during-call" {
 			return failf(a.Sig, "%s: %s; history: %s", a.Kind, a.A, w.history())
 		}
 	}
@@ -258,7 +279,43 @@ func (w *world) closeAll() *fail {
 			return failf("handle-did-not-return", "Server.Handle did not return within 20s after the request stream ended (connection %d); history: %s", i, w.history())
 		}
 	}
+	if w.life && !w.closed {
+		w.closed = true
+		if f := w.lifecycle(true); f != nil {
+			return f
+		}
+		if n, stack := serverGoroutines(5 * time.Second); n > 0 {
+			return failf("goroutine-left-behind", "%d server goroutine(s) still alive after Handle returned: %s; history: %s", n, stack, w.history())
+		}
+	}
 	return nil
+}
+
+// serverGoroutines polls until no goroutine of the server's connection
+// handling is left (or the deadline passes) and returns how many remain.
+func serverGoroutines(d time.Duration) (int, string) {
+	deadline := time.Now().Add(d)
+	for {
+		buf := make([]byte, 1<<20)
+		buf = buf[:runtime.Stack(buf, true)]
+		n := 0
+		sample := ""
+		for _, g := range strings.Split(string(buf), "\n\n") {
+			if strings.Contains(g, "p9.(*connState)") || strings.Contains(g, "p9.(*Server).Handle") {
+				n++
+				if sample == "" {
+					sample = g
+				}
+			}
+		}
+		if n == 0 || time.Now().After(deadline) {
+			if len(sample) > 1500 {
+				sample = sample[:1500]
+			}
+			return n, sample
+		}
+		time.Sleep(2 * time.Millisecond)
+	}
 }
 
 func (w *world) history() string {
